@@ -131,6 +131,7 @@ pub fn alphabet(l: &Lim) -> Vec<Op> {
     v.push(Op::C(16 * 1024 - 5, 5));
     v.push(Op::C(16 * 1024 - 4, 5));
     v.push(Op::Win(l.recv_window / 2));
+    v.push(Op::Win(l.recv_window * 3 / 4));
     v.push(Op::Win(l.recv_window * 4));
     v.push(Op::MaxUni(l.max_uni + 2));
     v.push(Op::MaxUni(l.max_uni.saturating_sub(1)));
